@@ -11,6 +11,13 @@ func BuildScenario(prop, tier string, ch *Chooser, lean bool, s *Sim) (Scenario,
 	case "C19", "C20":
 		d := DrawDir(prop, tier, ch, lean, s)
 		return d, d.Describe()
+	case "C18":
+		if ch.Choose(4) == 3 {
+			d := DrawDir(prop, tier, ch, lean, s)
+			return d, d.Describe()
+		}
+		c := DrawCore(prop, tier, ch, lean, s)
+		return c, c.Describe()
 	case "C15":
 		if ch.Choose(3) == 2 {
 			d := DrawDir(prop, tier, ch, lean, s)
